@@ -24,6 +24,8 @@ def parts(tier, rng):
     for p in SC.make_parts(tier, rng, {16}):
         p.name = "busy-sink-" + p.name
         out.append(p)
+    # packets arriving in one read (burst engines): nothing may panic
+    out += B.burst_parts(tier, rng, WANT)
     # "nor stops making progress": a streamed PUBLISH must be flagged for the in-flight limiter whatever piece of
     # its payload came with the header, otherwise its chunks wait for the slot its own handler holds
     import gen_codec3 as G3
